@@ -514,6 +514,8 @@ func (pr *printer) flow(f *FlowP) string {
 			fnExpr := pr.flowTaskFunc(f, t)
 			if t.WrapFn {
 				fnExpr = pr.probe("task-func", fnExpr)
+			} else if rng.Intn(8) == 0 {
+				fnExpr = "(" + fnExpr + ")" // redundant parentheses around the function expression
 			}
 			var opts []func() string
 			if t.Pred != nil {
@@ -818,6 +820,18 @@ func (pr *printer) par(p *ParP) string {
 	for _, it := range items {
 		fb.WriteString(",\n\t\t" + it.render())
 	}
-	fb.WriteString(",\n\t)\n\treturn nil, err\n}\n")
+	fb.WriteString(",\n\t)\n")
+	// the caller owns its collections again once the directive has returned (also when it
+	// returned early and element functions are still running): it clears them for reuse
+	for i := range p.Colls {
+		c := &p.Colls[i]
+		info := ci[c.ID]
+		if c.Map {
+			fmt.Fprintf(&fb, "\tfor k := range %s {\n\t\tdelete(%s, k)\n\t}\n", info.varName, info.varName)
+		} else {
+			fmt.Fprintf(&fb, "\tfor i := range %s {\n\t\tvar zero %s\n\t\t%s[i] = zero\n\t}\n", info.varName, info.elemT, info.varName)
+		}
+	}
+	fb.WriteString("\treturn nil, err\n}\n")
 	return fb.String()
 }
